@@ -1,41 +1,18 @@
 // C01 — typed binary writer/reader round trip with exact big/little-endian byte layout.
 // E-ENUM value sweeps per accessor + exhaustive operation histories over the writers (byte-vector
 // model) + cstr/line/raw block call trees + BitWriter/BitReader.  See harness/C01.notes.md.
-#include <stdint.h>
-#include <stdlib.h>
-#include <string.h>
-
-#include <algorithm>
-#include <functional>
-#include <string>
-#include <vector>
-
-#include "C01_kinds.hh"
-#include "vf.hh"
+#include "C01_common.hh"
 
 using namespace phosg;
 using namespace c01;
 
 namespace {
 
-typedef std::vector<uint8_t> Bytes;
-
-std::string kname(const char* op, const Kind& k) { return std::string(op) + "_" + k.name; }
-
-// exact-size heap block (ASan red zones on both sides)
-struct Exact {
-  uint8_t* p;
-  size_t n;
-  explicit Exact(size_t n_, uint8_t fill = 0xEE) : p((uint8_t*)malloc(n_ ? n_ : 1)), n(n_) { memset(p, fill, n_ ? n_ : 1); }
-  Exact(const Exact&) = delete;
-  ~Exact() { free(p); }
-};
-
 // ------------------------------------------------------------------------------------------------
 // full single-value check of one kind: StringWriter put/pput (inside, at end, past end),
 // BufferWriter put/pput, StringReader get(advance)/get(no advance)/pget at an unaligned offset.
 // Returns false after the first failure (already reported).
-bool check_value_full(vf::Run& r, const Kind& k, uint64_t v) {
+bool check_value_full(vf::Run& r, const Kind& k, uint64_t v, bool all_pput_modes = true) {
   const int w = k.w;
   uint8_t exp[8];
   enc(exp, v, w, k.e);
@@ -73,18 +50,20 @@ bool check_value_full(vf::Run& r, const Kind& k, uint64_t v) {
     // --- StringWriter::pput_K: overwrite inside, append at end, zero-extend past the end ------
     if (k.sw_pput) {
       static const uint8_t init[10] = {0x11, 0x22, 0x33, 0x44, 0x55, 0x66, 0x77, 0x88, 0x99, 0xAA};
-      for (int mode = 0; mode < 3; mode++) {
+      // modes: inside, at the end, past the end (zero gap), straddling the end, into an empty writer at 0 / at 5
+      for (int mode = 0; mode < (all_pput_modes ? 6 : 3); mode++) {
         StringWriter sw;
-        sw.write(init, 10);
-        Bytes m(init, init + 10);
-        size_t off = mode == 0 ? 1 : mode == 1 ? 10 : 13;
+        size_t have = mode >= 4 ? 0 : 10;
+        sw.write(init, have);
+        Bytes m(init, init + have);
+        size_t off = mode == 0 ? 1 : mode == 1 ? 10 : mode == 2 ? 13 : mode == 3 ? 9 : mode == 4 ? 0 : 5;
         if (m.size() < off + w) m.resize(off + w, 0);
         memcpy(m.data() + off, exp, w);
         k.sw_pput(sw, off, v);
         const std::string& s = sw.str();
-        if (s.size() != m.size() || memcmp(s.data(), m.data(), m.size())) {
-          r.fail(kname("pput", k) + (mode == 2 ? ":zero-extend" : ":bytes"), [&] {
-            return vdesc() + vf::fmt(": StringWriter with 10 bytes, pput at %zu gives ", off) + hexb(s.data(), s.size()) + ", model " + hexb(m.data(), m.size());
+        if (s.size() != m.size() || sw.size() != m.size() || memcmp(s.data(), m.data(), m.size())) {
+          r.fail(kname("pput", k) + (mode == 2 || mode == 5 ? ":zero-extend" : ":bytes"), [&] {
+            return vdesc() + vf::fmt(": StringWriter with %zu bytes, pput at %zu gives ", have, off) + hexb(s.data(), s.size()) + ", model " + hexb(m.data(), m.size());
           });
           return false;
         }
@@ -166,12 +145,16 @@ bool check_value_full(vf::Run& r, const Kind& k, uint64_t v) {
   return true;
 }
 
-void sweep_kind_values(vf::Run& r, const Kind& k, const std::vector<uint64_t>& vals) {
+// the first n_all_modes values get all six pput placements, the others the first three (the placement logic does
+// not depend on the value)
+void sweep_kind_values(vf::Run& r, const Kind& k, const std::vector<uint64_t>& vals, size_t n_all_modes = ~(size_t)0) {
+  size_t i = 0;
   for (uint64_t v : vals) {
+    size_t vi = i++;
     if (!r.take()) continue;
     if (r.wants_desc()) r.desc(std::string("value sweep ") + k.name + " " + hexv(v, k.w));
     r.nontriv();
-    if (check_value_full(r, k, v)) r.ok(std::string("roundtrip-ok/w") + std::to_string(k.w));
+    if (check_value_full(r, k, v, vi < n_all_modes)) r.ok(std::string("roundtrip-ok/w") + std::to_string(k.w));
   }
 }
 
@@ -240,12 +223,14 @@ VF_SECTION(sweep24, 16, 16, 60) {
 VF_SECTION(sweep32, 8, 8, 60) {
   std::vector<uint64_t> vals = structured_values(4);
   for (uint64_t s : float_specials(4)) vals.push_back(s);
+  for (uint64_t s : boundary_values(4)) vals.push_back(s);
   lane_product(L9(), 4, [&](uint64_t v) { vals.push_back(v); });
+  dedupe(vals);
   for (const Kind* k : kinds_of_width(4)) {
     r.note(k->name);
     sweep_kind_values(r, *k, vals);
   }
-  r.bound = "12 32-bit kinds x (L9^4 lane set + all-distinct + walking one/zero + float specials), full put/pput/get/pget check";
+  r.bound = "12 32-bit kinds x (L9^4 lane set + all-distinct + walking one/zero + +-(2^k-1), +-2^k, +-(2^k+1) for every k + float specials), full put/pput/get/pget check";
 }
 
 // ---- 32-bit: all 2^32 bit patterns (thorough) -------------------------------------------------
@@ -306,27 +291,32 @@ VF_SECTION(sweep32_all, 0, 16, 60) {
 // ---- 48-bit getters ---------------------------------------------------------------------------
 VF_SECTION(sweep48, 4, 4, 60) {
   std::vector<uint64_t> vals = structured_values(6);
+  for (uint64_t s : boundary_values(6)) vals.push_back(s);
   lane_product(L5(), 6, [&](uint64_t v) { vals.push_back(v); });
+  dedupe(vals);
   for (const Kind* k : kinds_of_width(6)) {
     r.note(k->name);
     sweep_kind_values(r, *k, vals);
   }
-  r.bound = "{get,pget}_{u48b,u48l,s48b,s48l} x (L5^6 lane set + all-distinct + walking one/zero): every choice of sign bit and byte lane";
+  r.bound = "{get,pget}_{u48b,u48l,s48b,s48l} x (L5^6 lane set + all-distinct + walking one/zero + +-(2^k-1), +-2^k, +-(2^k+1) for every k): every choice of sign bit and byte lane";
 }
 
 // ---- 64-bit ints and doubles -------------------------------------------------------------------
 VF_SECTION(sweep64, 16, 16, 60) {
   std::vector<uint64_t> vals = structured_values(8);
   for (uint64_t s : float_specials(8)) vals.push_back(s);
+  for (uint64_t s : boundary_values(8)) vals.push_back(s);
+  dedupe(vals);
+  size_t n_all_modes = vals.size();
   lane_product(L5(), 8, [&](uint64_t v) { vals.push_back(v); });
+  dedupe(vals);
   for (const Kind* k : kinds_of_width(8)) {
     r.note(k->name);
-    sweep_kind_values(r, *k, vals);
+    sweep_kind_values(r, *k, vals, n_all_modes);
   }
-  r.bound = "12 64-bit kinds x (L5^8 lane set = 390625 + all-distinct + walking one/zero + NaN payloads/zeros/inf/denormals)";
+  r.bound = "12 64-bit kinds x (L5^8 lane set = 390625 + all-distinct + walking one/zero + +-(2^k-1), +-2^k, +-(2^k+1) for every k + NaN payloads/zeros/inf/denormals)";
 }
 
-#include "C01_hist.hh"
 #include "C01_blocks.hh"
 
 VF_MAIN()
